@@ -549,6 +549,58 @@ fn gen_large(r: &mut Rng) -> String {
     out
 }
 
+// ---------------------------------------------------------------- I
+/// Input requests in the middle of live computations: many values are pending
+/// (held in temporaries) when a ',' is executed.
+fn gen_io(r: &mut Rng) -> String {
+    let mut out = String::new();
+    let n = 3 + r.below(8) as i32;
+    let mut cur = 0;
+    for i in 0..n {
+        go(&mut out, &mut cur, i);
+        out.push(',');
+        if i == 0 && r.chance(2) {
+            out.push('.');
+        }
+    }
+    for i in 0..n {
+        // pending: cell i+n (+)= k * cell i
+        match r.below(4) {
+            0 => add_preserving(&mut out, &mut cur, i + n, i, 2 * n + 1, r.chance(4)),
+            _ => {
+                go(&mut out, &mut cur, i);
+                out.push_str("[-");
+                go(&mut out, &mut cur, i + n);
+                rep(&mut out, '+', 1 + r.below(3));
+                go(&mut out, &mut cur, i);
+                out.push(']');
+            }
+        }
+    }
+    for i in 0..n {
+        if !r.chance(8) {
+            go(&mut out, &mut cur, i);
+            out.push(if r.chance(8) { '.' } else { ',' });
+        }
+    }
+    // the moved values are adjusted before they are printed, so they stay pending
+    // (in temporaries) across the second round of input requests
+    for i in n..2 * n {
+        go(&mut out, &mut cur, i);
+        if !r.chance(6) {
+            out.push(if r.chance(4) { '-' } else { '+' });
+        }
+        out.push('.');
+    }
+    for i in 0..n {
+        if r.chance(2) {
+            go(&mut out, &mut cur, i);
+            out.push('.');
+        }
+    }
+    out
+}
+
 // ---------------------------------------------------------------- T
 fn gen_roam(r: &mut Rng) -> String {
     let mut out = String::new();
@@ -842,6 +894,7 @@ pub fn main_gen(args: &[String]) {
             "N" => gen_net(&mut r),
             "T" => gen_roam(&mut r),
             "L" => gen_large(&mut r),
+            "I" => gen_io(&mut r),
             "D" => gen_div(&mut r),
             "M" => {
                 let s = r.pick(&seeds).clone();
